@@ -183,6 +183,17 @@ int main(int argc, char** argv) {
 	for (int k = 1; k < 64; ++k) { seed64((UINT64_C(1) << k) - 1, 64); seed64((UINT64_C(1) << k) + 1, 64); }
 	for (int k = 1; k < 32; ++k) { seed32((UINT32_C(1) << k) - 1, 64); seed32((UINT32_C(1) << k) + 1, 64); }
 	for (uint64_t k = 1; k <= 4; ++k) { seed64((uint64_t)0 - k * UINT64_C(0x9E3779B97F4A7C15), outs); seed32((uint32_t)0 - (uint32_t)k * 0x9e3779b9u, outs); }
+	// generators constructed without a seed: still a proper generator (an all-zero xoshiro state never leaves zero), equal to any
+	// other default-constructed one
+	{
+#define DEFAULT_GEN(T, call, what) { T a; T b; bool allZero = true, same = true; for (int i = 0; i < 16; ++i) { const auto x = a.call(); if (x != 0) allZero = false; if (x != b.call()) same = false; } ++g_checks; \
+		if (allZero) V("default|default-constructed-generator-yields-only-zeros", what); if (!same) V("determinism|default-constructed-generators-diverge", what); }
+		DEFAULT_GEN(FloatRandomT<8>, uint64, "xoshiro256+") DEFAULT_GEN(IntRandomT<8>, uint64, "xoshiro256**") DEFAULT_GEN(FloatRandomT<4>, uint32, "xoshiro128+") DEFAULT_GEN(IntRandomT<4>, uint32, "xoshiro128**")
+		DEFAULT_GEN(SimpleRandomT<8>, uint64, "splitmix64") DEFAULT_GEN(SimpleRandomT<4>, uint32, "splitmix32")
+#undef DEFAULT_GEN
+		{ FloatRandomT<4> g; for (int i = 0; i < 8; ++i) { const float f = g.float32(); ++g_checks; if (!(f >= 0.0f && f < 1.0f)) V("range|float32-outside-[0,1)", "default-constructed xoshiro128+"); } g.jump(); bool z = true; for (int i = 0; i < 8; ++i) if (g.uint32()) z = false; if (z) V("default|default-constructed-generator-yields-only-zeros", "xoshiro128+ after jump()"); }
+		{ IntRandomT<8> g; g.jump(); bool z = true; for (int i = 0; i < 8; ++i) if (g.uint64()) z = false; if (z) V("default|default-constructed-generator-yields-only-zeros", "xoshiro256** after jump()"); }
+	}
 	extremes();
 	const int n = thorough ? 100000 : 4000;
 	for (int i = 0; i < n; ++i) { seed64(rnd(), 24); seed32((uint32_t)rnd(), 24); }
